@@ -297,3 +297,15 @@ def run(facts, rep, ctx):
     gd6(facts, rep)
     sb9(facts, rep)
     tb7(facts, rep)
+
+
+_run_before_round4b = run
+
+
+def run(facts, rep, ctx):
+    """further rules added after the third seeding round (rules/round4.py)"""
+    _run_before_round4b(facts, rep, ctx)
+    from . import round4
+    round4.nc2(facts, rep)
+    round4.tb7b(facts, rep)
+
